@@ -7,6 +7,8 @@ base = json.load(open("/root/.vp/BASELINE.json"))
 fd, xmlp = tempfile.mkstemp(suffix=".xml"); os.close(fd)
 env = dict(os.environ); env.pop("PYMOCA_VERIF", None)
 env["XDG_CACHE_HOME"] = tempfile.mkdtemp(prefix="bl_cache_")
+# /venv has an editable install pointing at /repo/src: make the tests import the tree under test
+env["PYTHONPATH"] = os.path.join(repo, "src") + os.pathsep + repo
 subprocess.run(["/venv/bin/python", "-m", "pytest", "-q", "-p", "no:cacheprovider", "--timeout=900",
                 "--continue-on-collection-errors", "--junitxml=" + xmlp], cwd=repo, env=env,
                stdout=subprocess.DEVNULL, stderr=subprocess.DEVNULL)
